@@ -519,12 +519,22 @@ def _judge_c16(ctx, plan, op, ev, arts, batch, is_all, cname, consistent,
             "on its issuer key say weak=%s" % (batch[pos], res, o["weak"]),
             _known_issuer(arts, a), {"issuer": a["issuer"],
                                      "ec_entries": o["entries"]}))
-      elif res and sev != o["sev"]:
-        viol.append(_viol(
-            "C16", "issuer_verdict", i, "severity",
-            "signature pool[%d]: CheckIssuerKey severity=%d, highest severity "
-            "among the issuer key's failed EC checks=%s" %
-            (batch[pos], sev, o["sev"]), _known_issuer(arts, a)))
+      elif res:
+        # computed here from the EC entries, not with the library's helper
+        failed = [e[2] for e in o["entries"] if e[1]]
+        want = max(failed) if failed else None
+        if sev != want:
+          viol.append(_viol(
+              "C16", "issuer_verdict", i, "severity",
+              "signature pool[%d]: CheckIssuerKey severity=%d, highest "
+              "severity among the issuer key's failed EC checks=%s (%s)" %
+              (batch[pos], sev, want,
+               [(e[0], e[2]) for e in o["entries"] if e[1]]),
+              _known_issuer(arts, a)))
+        elif len(set(failed)) > 1:
+          st["probes"]["issuer_key_failed_checks_of_different_severity"] = \
+              st["probes"].get(
+                  "issuer_key_failed_checks_of_different_severity", 0) + 1
 
 
 def _known_c16_registry(ev):
@@ -580,6 +590,25 @@ def _judge_c10(ctx, plan, op, ev, arts, batch, is_all, cname, viol, st,
       c = A.curves()[a["curve"]]
       ok = bool(ent) and ent[0][0] and got is not None and \
           (int(got, 16) - d) % int(c.n) == 0
+      # the caller's (possibly already annotated) protobuf must end up flagged
+      # with that private key as well
+      pn = _entries_by_name(ev["post"][pos]).get("CheckWeakECPrivateKey", [])
+      pinfo = dict((n2, t2) for n2, t2 in ev["post"][pos]["infos"])
+      pgot = pinfo.get("DISCRETE_LOG")
+      try:
+        pok = bool(pn) and any(e[0] for e in pn) and pgot is not None and \
+            (int(pgot, 16) - d) % int(c.n) == 0
+      except ValueError:
+        pok = False
+      if ok and not pok:
+        viol.append(_viol(
+            "C10", "structured_key_missed_on_annotated", i,
+            a["fam"].split(":")[1][:6],
+            "EC key pool[%d] (%s): flagged on a clean copy but the caller's "
+            "already annotated protobuf is not flagged with its private key "
+            "(annotation before the call: weak=%s, %d entries)" %
+            (batch[pos], a["fam"], ev["pre"][pos]["weak"],
+             len(ev["pre"][pos]["entries"]))))
       if not ok:
         viol.append(_viol(
             "C10", "structured_key_missed", i, a["fam"].split(":")[1][:6],
@@ -603,6 +632,23 @@ def _judge_c10(ctx, plan, op, ev, arts, batch, is_all, cname, viol, st,
               "EC keys differing by %d (< max_diff %d): pool[%d] not flagged" %
               (a["truth"]["delta"], max_diff, batch[pos]),
               detail={"artifact": a}))
+    if runs_diff and a["fam"] == "small_diff_chain":
+      roles = {b["truth"]["role"] for b in arts
+               if b["fam"] == "small_diff_chain" and
+               b["truth"].get("pair") == a["truth"].get("pair")}
+      need = {"lo": {"mid"}, "hi": {"mid"}, "mid": {"lo", "hi"}}[
+          a["truth"]["role"]]
+      if roles & need and a["truth"]["delta"] < max_diff:
+        st["planted_log_checks"] += 1
+        ent = vn.get("CheckECKeySmallDifference", [])
+        if not (ent and ent[0][0]):
+          viol.append(_viol(
+              "C10", "small_difference_missed", i, "chain",
+              "EC key pool[%d] (%s of a chain d-m, d, d+m with m=%d < "
+              "max_diff %d) has a close partner in the batch but is not "
+              "flagged (batch order %s)" %
+              (batch[pos], a["truth"]["role"], a["truth"]["delta"], max_diff,
+               [b["truth"].get("role", "-") for b in arts])))
     if runs_diff and a["fam"] == "duplicate":
       # identical keys must not be flagged because of each other
       others = [b for b in arts if b is not a and b["curve"] == a["curve"] and
